@@ -16,7 +16,9 @@ func init() { checks["C13"] = c13 }
 
 var c13Hostile = []string{`"`, `'`, "`", `\`, `\\`, `\"`, `\n`, `\t`, `\s`, `A`, `%`, `%%`, `%v`, `%d`, `%s`, `%!`, `%!v(MISSING)`, `100%`, `{`, `}`, `{{`, `}}`, `{{notaplaceholder}}`, `{{ }}`, `{ {x} }`,
 	`$`, `$message`, `$result`, `$node`, `$traceNode`, `#`, `# comment`, `]`, `[`, `)`, `(`, `,`, `;`, `:`, `: `, ` - `, `|`, `>`, `&`, `*`, `!`, `?`, `@`, `=`, `:=`, `==`, `é`, `☃`, `漢字`, `😀`, "‏", "é", " ", `<`, `>`, `&amp;`, `</script>`,
-	`") := x`, `"]`, `"})`, `true`, `null`, `0`, `-1`, `1e9`, `~`, `not`, `default`, `package`, `import`, `some`, `every`, `in`, `with`, `as`, `else`, `report`, `violation["x"]`, `input`, `data`, `trace(`, `error(`}
+	`") := x`, `"]`, `"})`, `true`, `null`, `0`, `-1`, `1e9`, `~`, `not`, `default`, `package`, `import`, `some`, `every`, `in`, `with`, `as`, `else`, `report`, `violation["x"]`, `input`, `data`, `trace(`, `error(`,
+	// control and other non-printable characters (an ANSI colour sequence in a message, a bell in a name ...): escapes differ between Go, JSON, YAML and Rego
+	"\a", "\v", "\f", "\b", "\x1b[31m", "\x1b[0m", "\x7f", "\x01", "\x1f", "\U000E0001", "\ufeff", "\u2028", "\u2029", "\u0085", "\u00a0", "\U0001F3F4\U000E0067"}
 
 var c13LanguageKeys = []string{"violation", "warning", "info", "validations", "prefixes", "profile", "description", "targetClass", "message", "propertyConstraints", "and", "or", "not", "if", "then", "else", "rego", "regoModule", "rego_extensions", "code",
 	"nested", "atLeast", "atMost", "count", "validation", "minCount", "maxCount", "exactCount", "pattern", "in", "containsAll", "containsSome", "datatype", "minLength", "maxLength", "minInclusive", "maxExclusive", "lessThanProperty", "equalsToProperty", "ex", "ex.req", "ex.T"}
@@ -64,9 +66,9 @@ type msgPart struct {
 // C13: names and messages reach the report intact; special characters never change the profile's meaning.
 func c13(tier string) {
 	ctx := lib.NewCtx("C13", tier)
-	ctx.Rule = "profiles whose profile name, validation name, message (0-4 {{prefix.property}} placeholders with optional inner whitespace, values string/integer/boolean/absent) and in/containsAll/containsSome list values are drawn from a hostile alphabet (quotes, backslashes, % verbs, braces, $-variables of the generator, Rego/YAML syntax, non-ASCII, combining and bidi marks, 4 KiB strings, strings equal to keys of the profile language), each position alone and together; expected report fields come from a reference renderer, expected focus nodes from the same profile with bland text; " +
+	ctx.Rule = "profiles whose profile name, validation name, message (0-4 {{prefix.property}} placeholders with optional inner whitespace, values string/integer/boolean/absent) and in/containsAll/containsSome list values are drawn from a hostile alphabet (quotes, backslashes, % verbs, braces, $-variables of the generator, Rego/YAML syntax, non-ASCII, combining and bidi marks, C0 / C1 control characters, DEL, BOM, line / paragraph separators, tag characters above U+FFFF, 4 KiB strings, strings equal to keys of the profile language), each position alone and together; expected report fields come from a reference renderer, expected focus nodes from the same profile with bland text; " +
 		"non-trivial & distinct = distinct (profile name, validation name, message, list value) tuple containing at least one hostile token"
-	ctx.Assumptions = []string{"printable Unicode; newline and tab only inside messages; names non-empty", "placeholder values are single string / integer / boolean values or absent", "the profile author's strings are emitted as YAML scalars by the harness's printer and verified by re-parsing with yaml.v3 before use"}
+	ctx.Assumptions = []string{"any Unicode scalar value except NUL (control characters included); newline and tab only inside messages; names non-empty", "placeholder values are single string (also empty) / integer (also 0, negative) / boolean (true, false) values or absent; property names may hold a hyphen", "the profile author's strings are emitted as YAML scalars by the harness's printer and verified by re-parsing with yaml.v3 before use"}
 	n := ctx.N(3000, 40000)
 	if !ctx.IsShard() {
 		ctx.RunShards()
@@ -81,6 +83,10 @@ func c13(tier string) {
 			nd.Add(lib.EX+"k1", lib.StrV("val1"))
 			nd.Add(lib.EX+"k2", lib.IntV(42))
 			nd.Add(lib.EX+"k3", lib.BoolV(true))
+			nd.Add(lib.EX+"k4", lib.BoolV(false))
+			nd.Add(lib.EX+"k5", lib.IntV(0))
+			nd.Add(lib.EX+"k6", lib.StrV(""))
+			nd.Add(lib.EX+"k-7", lib.IntV(-7))
 			if id == "t_ok" {
 				nd.Add(lib.EX+"req", lib.StrV("here"))
 			}
@@ -95,7 +101,7 @@ func c13(tier string) {
 		}
 		return g.CanonicalJSONLD(), ids
 	}
-	values := map[string]string{"k1": "val1", "k2": "42", "k3": "true", "zz": "null"}
+	values := map[string]string{"k1": "val1", "k2": "42", "k3": "true", "k4": "false", "k5": "0", "k6": "", "k-7": "-7", "zz": "null"}
 	ctx.ForEach(n, func(i int) {
 		r := lib.CaseRand(ctx.Seed, 13, i)
 		mask := r.Intn(16)
@@ -121,7 +127,7 @@ func c13(tier string) {
 		nLit := 1 + r.Intn(3)
 		for k := 0; k < nLit+nPh; k++ {
 			if k%2 == 1 && nPh > 0 {
-				prop := pick(r, "k1", "k2", "k3", "zz", "k1")
+				prop := pick(r, "k1", "k2", "k3", "zz", "k1", "k4", "k5", "k6", "k-7")
 				inner := pick(r, "ex."+prop, " ex."+prop+" ", "  ex."+prop, "ex."+prop+"\t")
 				if r.Intn(6) == 0 {
 					// a placeholder over a vocabulary the focus node has nothing of: undeclared prefix, underscore, built-in prefix
